@@ -188,6 +188,45 @@ FracSib(dd) ==
   \cup (IF Rank(dd) >= 6 THEN { <<"exclusiveMinimum", I(1)>>, <<"exclusiveMaximum", I(3)>>, <<"exclusiveMinimum", Tn(5)>>, <<"exclusiveMaximum", Tn(25)>>, <<"const", I(2)>> }
         ELSE { <<"exclusiveMinimum", T>>, <<"exclusiveMaximum", T>>, <<"exclusiveMinimum", F>>, <<"exclusiveMaximum", F>> })
 
+(* "patternProperties" over the literal pattern vocabulary of JsonSchema     *)
+(* (section "Patterns"): "^a" prefix, "b$" suffix, "^a$" equality, "a"       *)
+(* occurrence, "" every name, two-letter literals; subschemas that assert    *)
+(* something about the member value (type / false / minimum) and subschemas  *)
+(* that produce annotations INSIDE the value (properties /                   *)
+(* additionalProperties / nested patternProperties / unevaluatedProperties): *)
+(* those belong to the child location and must not reach the enclosing       *)
+(* object.                                                                   *)
+PP(v) == <<"patternProperties", v>>
+Pa == <<94, 97>>              \* "^a"
+Pb == <<94, 98>>              \* "^b"
+Pbe == <<98, 36>>             \* "b$"
+Pae == <<94, 97, 36>>         \* "^a$"
+Pab == <<94, 97, 98>>         \* "^ab"
+Pbce == <<98, 99, 36>>        \* "bc$"
+AB == <<97, 98>>
+PatCore(dd) ==
+  { PP(O1(Pa, TInt)), PP(O1(Pbe, TStr)), PP(O2(Pa, TInt, A, Min1)), PP(O1(<<>>, TInt)), PP(O1(Pa, K1("properties", O1(B, True(dd))))) }
+PatMid(dd) ==
+  PatCore(dd) \cup
+  { PP(O1(Pae, False(dd))), PP(O2(Pa, TInt, Pbe, TStr)), PP(O1(Pa, K1("additionalProperties", TInt))),
+    PP(O1(<<>>, K1("properties", O1(B, True(dd))))), PP(O2(Pa, K1("properties", O1(B, True(dd))), Pb, TInt)) }
+PatA(dd) ==
+  PatMid(dd) \cup
+  { PP(O1(A, TInt)), PP(O1(C, False(dd))), PP(EmptyObj), PP(O1(Pab, TInt)), PP(O1(Pbce, TStr)), PP(O2(Pae, TInt, Pab, TStr)),
+    PP(O1(Pa, K1("patternProperties", O1(Pb, True(dd))))), PP(O1(Pbe, K1("properties", O1(A, TInt)))),
+    PP(O1(Pa, K2("properties", O1(B, True(dd)), "required", Ar(<<JStr(B)>>)))),
+    PP(O1(Pa, K1("allOf", Ar(<<K1("properties", O1(B, True(dd)))>>)))) }
+  \cup (IF Rank(dd) >= 8 THEN { PP(O1(Pa, K2("properties", O1(B, T), "unevaluatedProperties", F))), PP(O1(Pa, K1("unevaluatedProperties", TInt))) } ELSE {})
+(* Siblings of "patternProperties": "properties" (names matched by both, by   *)
+(* one, by none), "additionalProperties" (applies to what neither matched),   *)
+(* "unevaluatedProperties" (sees the matched names as evaluated).             *)
+PatSib(dd) ==
+  { <<"properties", O1(A, TInt)>>, <<"properties", O1(B, True(dd))>>, <<"properties", O2(A, True(dd), AB, TStr)>>,
+    <<"additionalProperties", F>>, <<"additionalProperties", TInt>>, <<"additionalProperties", TStr>>,
+    <<"required", Ar(<<JStr(A)>>)>>, <<"type", Str("object")>>, <<"maxProperties", I(1)>> }
+  \cup (IF Rank(dd) >= 6 THEN { <<"propertyNames", K1("maxLength", I(1))>> } ELSE {})
+  \cup (IF Rank(dd) >= 8 THEN { <<"unevaluatedProperties", F>>, <<"unevaluatedProperties", TInt>>, <<"unevaluatedProperties", TStr>> } ELSE {})
+
 (* Applicator keywords with filler subschemas.                              *)
 Appl(dd, lvl) ==
   LET r == Rank(dd)
@@ -200,6 +239,7 @@ Appl(dd, lvl) ==
   \cup { <<"additionalProperties", x>> : x \in fs \cup {F} }       \* boolean form allowed in every dialect
   \cup (IF mid THEN { <<"properties", O2(A, x, B, y)>> : x \in f2, y \in f2 } ELSE {})
   \cup (IF full THEN { <<"additionalProperties", T>>, <<"properties", EmptyObj>>, <<"properties", O1(B, TInt)>> } ELSE {})
+  \cup (IF full THEN PatCore(dd) ELSE {})
   \* arrays
   \cup { <<"items", x>> : x \in fs }
   \cup (IF r <= 8 THEN { <<"items", Ar(<<x>>)>> : x \in f2 } \cup { <<"additionalItems", x>> : x \in f2 \cup {F} }
@@ -230,6 +270,7 @@ Appl(dd, lvl) ==
 Annot(dd) ==
   LET r == Rank(dd) IN
   { <<"properties", O1(A, TInt)>>, <<"properties", O1(B, True(dd))>>, <<"properties", O2(A, TInt, B, TStr)>>, <<"additionalProperties", TStr>>,
+    PP(O1(Pa, TInt)),
     <<"required", Ar(<<JStr(A)>>)>>, <<"dependentSchemas", O1(A, K1("properties", O1(B, T)))>>, <<"propertyNames", K1("maxLength", I(1))>>,
     <<"items", TInt>>, <<"contains", Min1>>, <<"minItems", I(1)>>, <<"type", Str("object")>>, <<"type", Str("array")>>,
     <<"unevaluatedProperties", TStr>>, <<"unevaluatedItems", TStr>>, <<"unevaluatedProperties", T>>, <<"unevaluatedItems", T>> }
@@ -243,6 +284,7 @@ Annot(dd) ==
 (* members of the parent, even when they coincide.                          *)
 ScopeIn(dd) ==
   { <<"properties", O1(B, True(dd))>>, <<"properties", O1(A, True(dd))>>, <<"properties", O2(A, True(dd), B, True(dd))>>, <<"additionalProperties", TInt>>,
+    PP(O1(Pb, True(dd))),
     <<"items", TInt>>, <<"contains", Min1>> }
   \cup (IF Rank(dd) = 8 THEN { <<"items", Ar(<<T>>)>>, <<"items", Ar(<<T, T>>)>> } ELSE { <<"prefixItems", Ar(<<T>>)>>, <<"prefixItems", Ar(<<T, T>>)>> })
 ScopeU(dd) == { <<"unevaluatedProperties", F>>, <<"unevaluatedItems", F>>, <<"unevaluatedProperties", TInt>>, <<"unevaluatedItems", TInt>> }
@@ -289,6 +331,9 @@ Alpha(dd, name) ==
     [] name = "fracmid" -> FracA(dd, "mid")
     [] name = "fraccore" -> FracA(dd, "core")
     [] name = "fracsib" -> FracSib(dd)
+    [] name = "pat" -> PatA(dd)
+    [] name = "patmid" -> PatMid(dd)
+    [] name = "patsib" -> PatSib(dd)
 
 -----------------------------------------------------------------------------
 (* Meta-schema side conditions between sibling keywords (d4: "dependencies" *)
@@ -321,7 +366,7 @@ Wraps(dd, x, name) ==
         \cup (IF r >= 8 THEN { K1("dependentSchemas", O1(A, x)), K1("dependentSchemas", O1(B, x)) } ELSE { K1("dependencies", O1(A, x)), K1("dependencies", O1(B, x)) })
       child ==
         { K1("properties", O1(A, x)), K1("properties", O2(A, x, B, TInt)), K1("properties", O1(B, x)), K1("additionalProperties", x), K1("items", x) }
-        \cup { K2("properties", O1(A, TInt), "additionalProperties", x) }
+        \cup { K2("properties", O1(A, TInt), "additionalProperties", x), K1("patternProperties", O1(Pa, x)) }
         \cup (IF r <= 8 THEN { K1("items", Ar(<<x>>)), K1("items", Ar(<<TInt, x>>)), K2("items", Ar(<<TInt>>), "additionalItems", x), K1("additionalItems", x) }
               ELSE { K1("prefixItems", Ar(<<x>>)), K1("prefixItems", Ar(<<TInt, x>>)), K2("prefixItems", Ar(<<TInt>>), "items", x) })
         \cup (IF r >= 6 THEN { K1("contains", x), K1("propertyNames", x) } ELSE {})
@@ -356,8 +401,20 @@ Wraps(dd, x, name) ==
        [] name = "child" -> child
        [] name = "ref" -> ref
        [] name = "struct" -> inplace \cup child
+       \* x itself, and x behind a few in-place applicators (plan "pat": the siblings are added outside)
+       [] name = "patwrap" ->
+            { x, K1("allOf", Ar(<<x>>)), K1("anyOf", Ar(<<K1("properties", O1(B, tr)), x>>)), K1("not", x), K2(dk, O1(A, x), "$ref", JStr(DefsPtr(dd, A))) }
+            \cup (IF r >= 7 THEN { K1("if", x) } ELSE {})
+       \* x as the subschema of a pattern (a child application)
+       [] name = "patchild" ->
+            { K1("patternProperties", O1(Pa, x)), K1("patternProperties", O1(<<>>, x)), K1("patternProperties", O2(Pa, x, Pbe, TInt)),
+              K1("patternProperties", O2(Pa, x, A, x)),
+              K2("properties", O1(A, TInt), "patternProperties", O1(Pa, x)), K2("patternProperties", O1(Pa, x), "additionalProperties", False(dd)),
+              K2("patternProperties", O1(Pa, tr), "additionalProperties", x) }
+            \cup (IF r >= 8 THEN { K2("patternProperties", O1(Pa, x), "unevaluatedProperties", F), K2("patternProperties", O1(Pb, tr), "unevaluatedProperties", x) } ELSE {})
        [] name = "scopechild" ->
-            { K1("properties", O1(A, x)), K1("properties", O1(B, x)), K1("properties", O2(A, x, B, tr)), K1("additionalProperties", x), K1("items", x), K1("contains", x) }
+            { K1("properties", O1(A, x)), K1("properties", O1(B, x)), K1("properties", O2(A, x, B, tr)), K1("additionalProperties", x), K1("items", x), K1("contains", x),
+              K1("patternProperties", O1(Pa, x)) }
             \cup (IF r = 8 THEN { K1("items", Ar(<<x>>)), K1("items", Ar(<<tr, x>>)), K2("items", Ar(<<tr>>), "additionalItems", x) }
                   ELSE { K1("prefixItems", Ar(<<x>>)), K1("prefixItems", Ar(<<tr, x>>)), K2("prefixItems", Ar(<<tr>>), "items", x) })
 
@@ -386,6 +443,10 @@ Plan ==
     [] PlanName = "fracsib3" -> <<Ad("fracmid"), Ad("fracsib"), Ad("fracsib")>>
     [] PlanName = "fracfull" -> <<Ad("frac"), Ad("full")>>
     [] PlanName = "fracnest2" -> <<Ad("fraccore"), Ne("struct"), Ne("struct")>>
+    [] PlanName = "pat" -> <<Ad("pat"), Ne("patwrap"), Ad("patsib")>>
+    [] PlanName = "patnest" -> <<Ad("core"), Ne("patchild")>>
+    [] PlanName = "patnestfull" -> <<Ad("full"), Ne("patchild")>>
+    [] PlanName = "pat2" -> <<Ad("patmid"), Ad("patsib"), Ne("inplace"), Ad("uneval")>>
 
 (* sh spreads the first step over NSpread seeds per dialect so that all TLC  *)
 (* workers are busy from the start (cases are evaluated by the worker that   *)
@@ -406,7 +467,7 @@ Next ==
           ELSE LET ws == SetToSeq(Wraps(d, Strip(s), st[2])) IN
                \E j \in 1..Len(ws) : (sh # 0 => (j % NSpread) = sh - 1) /\ s' = Hoist(s, ws[j])
 (* Emitted: schemas valid under the meta-schema whose references resolve.    *)
-WF == Coherent(d, s) /\ RefsResolve(d, s)
+WF == Coherent(d, s) /\ RefsResolve(d, s) /\ PatternsInVocabulary(d, s)
 
 -----------------------------------------------------------------------------
 (* Steered instances.                                                       *)
@@ -454,6 +515,7 @@ UniqInst == { Ar(<<Tn(10), I(1)>>), Ar(<<Tn(15), Hd(150)>>), Ar(<<I(1), Tn(15)>>
 MentionsNumeric(t) == IF t[1] = "str" THEN t[2] \in {S("integer"), S("number")}
                       ELSE \E j \in 1..Len(t[2]) : t[2][j][2] \in {S("integer"), S("number")}
 
+PatNames(p) == LET lit == PatLit(p) IN { lit, lit \o <<122>>, <<122>> \o lit, <<122>> \o lit \o <<122>> }
 RECURSIVE Steer(_, _, _, _)
 Steer(dd, root, x, fuel) ==
   IF fuel = 0 \/ x[1] # "obj" THEN {}
@@ -494,6 +556,11 @@ Steer(dd, root, x, fuel) ==
       deps == (IF has("dependentRequired") THEN depo(at("dependentRequired")) ELSE {}) \cup (IF has("dependencies") THEN depo(at("dependencies")) \cup trig(at("dependencies")) ELSE {})
               \cup (IF has("dependentSchemas") /\ at("dependentSchemas")[1] = "obj" THEN trig(at("dependentSchemas")) ELSE {})
       props == IF has("properties") THEN UNION { { O1(k, y) : y \in sub(at("properties")[2][k]) } : k \in DOMAIN at("properties")[2] } ELSE {}
+      \* patternProperties: names built from each pattern's literal (the literal, the literal with a letter before / after / on both
+      \* sides: equality, prefix, suffix and occurrence tell them apart) with the steered values of its subschema and two plain values
+      patp == IF has("patternProperties") /\ at("patternProperties")[1] = "obj"
+              THEN UNION { { O1(nm, y) : nm \in PatNames(p), y \in sub(at("patternProperties")[2][p]) \cup {I(1), JStr(A)} } : p \in DOMAIN at("patternProperties")[2] }
+              ELSE {}
       addl == UNION { IF has(k) /\ IsSchemaVal(dd, at(k)) THEN { O1(C, y) : y \in sub(at(k)) } \cup { O2(A, I(1), C, y) : y \in sub(at(k)) } ELSE {} : k \in {"additionalProperties", "unevaluatedProperties"} }
       pnam == IF has("propertyNames") THEN { O1(y[2], I(1)) : y \in { z \in sub(at("propertyNames")) : z[1] = "str" } } ELSE {}
       elem == UNION { IF has(k) /\ IsSchemaVal(dd, at(k)) THEN { Ar(<<y>>) : y \in sub(at(k)) } \cup { Ar(<<I(1), y>>) : y \in sub(at(k)) } ELSE {}
@@ -504,7 +571,7 @@ Steer(dd, root, x, fuel) ==
               \cup UNION { IF has(k) THEN sub(at(k)) ELSE {} : k \in {"not", "if", "then", "else"} }
               \cup UNION { IF has(k) /\ at(k)[1] = "obj" THEN submap(at(k)) ELSE {} : k \in {"dependentSchemas", "dependencies"} }
               \cup (IF has("$ref") /\ at("$ref")[1] = "str" /\ IsOk(ResolveRef(dd, root, at("$ref")[2])) THEN sub(ResolveRef(dd, root, at("$ref")[2])[2]) ELSE {})
-  IN nums \cup strs \cup arrs \cup objs \cup vals \cup reqs \cup deps \cup props \cup addl \cup pnam \cup elem \cup posn \cup inpl
+  IN nums \cup strs \cup arrs \cup objs \cup vals \cup reqs \cup deps \cup props \cup patp \cup addl \cup pnam \cup elem \cup posn \cup inpl
 
 (* Instances for the "scope" plan: a nested value whose evaluated member     *)
 (* names / positions coincide (or not) with unevaluated ones of the parent. *)
@@ -515,7 +582,21 @@ ScopeInst ==
     Ar(<<Ar(<<I(1)>>), I(2)>>), Ar(<<Ar(<<I(1)>>)>>), Ar(<<Ar(<<I(1), I(2)>>)>>), Ar(<<Ar(<<I(1), I(2)>>), I(3)>>), Ar(<<Ar(<<I(1), I(2)>>), I(3), I(4)>>),
     Ar(<<Ar(<<I(1)>>), Ar(<<I(1)>>)>>), Ar(<<I(2), Ar(<<I(1)>>)>>), Ar(<<I(2), Ar(<<I(1), I(2)>>), I(3)>>), Ar(<<Ar(<<I(1)>>), JStr(A)>>), Ar(<<Ar(<<JStr(A), I(1)>>), I(2)>>),
     Ar(<<O1(B, I(1)), I(2)>>), Ar(<<O1(B, I(1))>>), O1(A, Ar(<<Ar(<<I(1)>>), I(2)>>)) }
-ExtraInst == IF PlanName = "scope" THEN ScopeInst ELSE {}
+(* Instances for the pattern plans: member names matched by 0 / 1 / 2        *)
+(* patterns ("ab": "^a" and "b$"), names that tell prefix / suffix /          *)
+(* occurrence / equality apart, nested objects that repeat a member name of   *)
+(* the enclosing object (what the value's subschema evaluates inside the      *)
+(* value must not count for the enclosing object).                            *)
+BA == <<98, 97>>
+PatInst ==
+  { O1(AB, I(1)), O1(AB, JStr(A)), O1(BA, I(1)), O1(BA, JStr(A)), O2(A, I(1), AB, JStr(A)), O2(AB, I(1), B, JStr(A)), O1(<<97, 98, 99>>, I(1)), O1(<<97, 98, 99>>, JStr(A)),
+    O1(<<99, 97, 98>>, I(1)), O1(<<>>, I(1)), O1(<<>>, JStr(A)), O3(AB, I(1), BA, I(1), C, JStr(A)), O2(A, I(1), BA, JStr(A)), O1(<<97, 97>>, I(0)),
+    O2(AB, O1(B, I(1)), B, I(2)), O2(A, O1(B, I(1)), B, JStr(A)), O2(A, O1(A, I(1)), B, O1(B, I(1))), O2(A, O2(B, I(1), C, I(1)), C, I(1)),
+    O2(AB, O1(A, I(1)), A, JStr(A)), O1(A, O1(AB, I(1))), O3(A, O1(B, O1(C, I(1))), B, I(1), C, I(1)), O2(B, O1(A, I(1)), A, I(1)), O2(B, O1(A, JStr(A)), A, I(1)),
+    O2(A, O1(B, I(1)), AB, O1(C, I(1))), O3(A, O1(B, I(1)), AB, O1(C, I(1)), C, I(1)), O2(A, O1(B, JStr(A)), C, O1(B, I(1))), O1(A, O2(B, I(1), AB, I(1))),
+    O2(A, Ar(<<I(1)>>), B, I(1)), Ar(<<O2(A, O1(B, I(1)), B, I(2))>>) }
+ExtraInst == IF PlanName = "scope" THEN ScopeInst
+             ELSE IF PlanName \in {"pat", "pat2", "patnest", "patnestfull"} THEN ScopeInst \cup PatInst ELSE {}
 Steered == SetToSeq((Steer(d, s, s, 4) \cup ExtraInst) \ BaseSet)
 
 -----------------------------------------------------------------------------
@@ -579,7 +660,7 @@ RECURSIVE HasWideObj(_)
 HasWideObj(v) == CASE v[1] = "obj" -> Cardinality(DOMAIN v[2]) >= 2 \/ \E k \in DOMAIN v[2] : HasWideObj(v[2][k])
                    [] v[1] = "arr" -> \E j \in 1..Len(v[2]) : HasWideObj(v[2][j])
                    [] OTHER -> FALSE
-AnnotKws == {"properties", "additionalProperties", "items", "prefixItems", "additionalItems", "contains", "unevaluatedProperties",
+AnnotKws == {"properties", "patternProperties", "additionalProperties", "items", "prefixItems", "additionalItems", "contains", "unevaluatedProperties",
              "unevaluatedItems", "$ref"}
 Trigger(name, dd, root) ==
   CASE name = "ojson-member-order" ->
@@ -601,7 +682,7 @@ Trigger(name, dd, root) ==
          /\ Rank(dd) >= 8
          /\ \E y \in Subs(dd, root) : y[1] = "obj" /\ S("unevaluatedProperties") \in DOMAIN y[2] /\
                \E z \in Subs(dd, y[2][S("unevaluatedProperties")]) : z[1] = "obj" /\
-                  \E k \in {"properties", "additionalProperties", "unevaluatedProperties", "$ref"} : S(k) \in DOMAIN z[2]
+                  \E k \in {"properties", "patternProperties", "additionalProperties", "unevaluatedProperties", "$ref"} : S(k) \in DOMAIN z[2]
     [] OTHER -> FALSE
 DevOf(dd, root) == { name \in KnownDeviations : Trigger(name, dd, root) }
 
